@@ -155,9 +155,13 @@ type world struct {
 	height  uint64
 	storage string
 	ods     []libshare.Share
+	// alt: a second, different block (same layout, other payload) the server holds at another
+	// height at the same time; a request must be answered from the block it names
+	alt *world
 }
 
 type expectation struct {
+	w        *world // the block the request names (nil: none)
 	class    string
 	why      string
 	id       refID
@@ -187,10 +191,14 @@ func classify(kind int, raw []byte, w *world) expectation {
 			return refuse("from>=to")
 		}
 	}
+	if w != nil && w.alt != nil && id.height == w.alt.height {
+		w = w.alt
+	}
 	if w == nil || id.height != w.height {
 		e.class, e.why = expNotFound, "height-not-held"
 		return e
 	}
+	e.w = w
 	eds, ods := w.S.N, w.S.W
 	switch kind {
 	case kRow:
